@@ -6,7 +6,7 @@ inputs, in double and in float (the model then runs with a NumOps rounding every
 import os, sys, math, struct
 from vlib import *
 
-PROPS = ['Props/Properties_C27.v', 'Props/Properties_C27Q.v', 'Props/Properties_C27X.v', 'Props/Properties_C27A.v', 'Props/Properties_C27R.v', 'Props/Properties_C27T.v']
+PROPS = ['Props/Properties_C27.v', 'Props/Properties_C27Q.v', 'Props/Properties_C27X.v', 'Props/Properties_C27A.v', 'Props/Properties_C27R.v', 'Props/Properties_C27T.v', 'Props/Properties_C27L.v']
 EXTRACT = '''From Coq Require Import Extraction ExtrOcamlBasic.
 Require Import Num Vec rot27_gen C27_Model.
 Extraction Language OCaml.
@@ -113,6 +113,20 @@ def make_cases(rng, flt, n):
         add('c2', g.rot_of_angles(sp, [(g.angle(), i), (g.angle(), j)]), sp, i, j)
         add('c3', g.rot_of_angles(sp, [(g.angle(), i), (g.angle(), j), (g.angle(), k)]), sp, i, j, k)
         add('c3', g.rot(), sp, i, j, k)
+    # gimbal lock of every three-angle sequence (12 axis orders x body/space): matrices that are exact products of elementary
+    # rotations with the middle angle exactly at the lock (+-pi/2 for i-j-k, 0 / pi for i-j-i orders; both signs, so both lock
+    # branches of the extraction are taken) and 1e-16 .. 1e-4 away from it; the extracted ANGLES are compared
+    outer = [(-2.5, -2.5), (0.9, -0.4), (2.2, 0.9)]
+    for sp in (0, 1):
+        for i in range(3):
+            for j in range(3):
+                for k in range(3):
+                    if i == j or j == k: continue
+                    locks = (math.pi / 2, -math.pi / 2) if i != k else (0.0, math.pi)
+                    for lk in locks:
+                        for dlt in (0.0, 1e-16, -1e-16, 1e-9, -1e-9, 1e-6, -1e-4):
+                            for (a1, a3) in outer:
+                                add('c3', g.rot_of_angles(sp, [(a1, i), (lk + dlt, j), (a3, k)]), sp, i, j, k)
     # all sequences, both kinds, with angle classes chosen per case
     for sp in (0, 1):
         for i in range(3):
